@@ -15,3 +15,38 @@ func NormIndex(i, n int) int {
 	}
 	return -1
 }
+
+// SliceLo is the first index of a slice with the given start on an array of
+// length n: a negative start counts from the end and is clamped to 0.
+func SliceLo(start, n int) int {
+	if start < 0 {
+		start = n + start
+		if start < 0 {
+			return 0
+		}
+	}
+	return start
+}
+
+// SliceHi is the exclusive upper bound for a positive step: a negative end
+// counts from the end (and may stay negative: empty), an end past the array is
+// clamped to n.
+func SliceHi(end, n int) int {
+	if end < 0 {
+		return n + end
+	}
+	if n < end {
+		return n
+	}
+	return end
+}
+
+// SliceHiDown is the exclusive lower bound for a negative step: as SliceHi but
+// never below -1.
+func SliceHiDown(end, n int) int {
+	e := SliceHi(end, n)
+	if e < -1 {
+		return -1
+	}
+	return e
+}
